@@ -96,6 +96,10 @@ func runC15(idx int, rng *rand.Rand, tier string) []Case {
 		}
 	} else {
 		for i := 0; i < n; i++ {
+			if i%5 == 2 { // a target without header lines, an indented comment, the next request line directly after it
+				fmt.Fprintf(&src, "POST http://t.example/%d\n%s# comment %d\n", i, []string{" ", "\t", "   "}[i%3], i)
+				continue
+			}
 			fmt.Fprintf(&src, "POST http://t.example/%d\nX-Id: %d\n", i, i)
 			if rng.Intn(3) == 0 {
 				fmt.Fprintf(&src, "# comment %d\n", i)
@@ -123,11 +127,15 @@ func runC15(idx int, rng *rand.Rand, tier string) []Case {
 	// the header a drawn target must carry, now and when every draw is over
 	headerOK := func(t *vegeta.Target, id string) bool {
 		v := t.Header["X-Id"]
+		own := 1
+		if n, _ := strconv.Atoi(id); format == "http" && n%5 == 2 {
+			own = 0 // written without header lines
+		}
 		if defaults == nil {
-			return len(v) == 1 && v[0] == id
+			return len(t.Header) == own && len(v) == own && (own == 0 || v[0] == id)
 		}
 		d := t.Header["X-Def"]
-		return len(v) == 4 && v[0] == "d0" && v[1] == "d1" && v[2] == "d2" && v[3] == id && len(d) == 1 && d[0] == "a"
+		return len(t.Header) == 2 && len(v) == 3+own && v[0] == "d0" && v[1] == "d1" && v[2] == "d2" && (own == 0 || v[3] == id) && len(d) == 1 && d[0] == "a"
 	}
 	type call struct{ s, e, out int64 }
 	calls := make([][]call, callers)
